@@ -13,6 +13,8 @@ from pyvc.engine import SObj, NDArr, SList, PyRaise, EngineError
 from pyvc.values import *      # noqa
 from pyvc.runner import Unit, Canary
 from .schema import SCHEMA
+import pyvc.builtins as B
+from fractions import Fraction
 
 P = 'C04'
 R = z3.RealSort()
@@ -75,7 +77,9 @@ def t_nf_helper(eng):
     def arg(dv, j):
         return [r_sub(v1.data[c], r_mul(kvec[c], dv.data[pidx][j][c])) for c in range(3)]
     psi_plus = psi_uf(eng, arg(dv_p, 0), arg(dv_p, 1), k, Fraction(1, 2), pidx)
-    psi_minus = psi_uf(eng, arg(dv_m, 0), arg(dv_m, 1), k, Fraction(1, 2), pidx)
+    # the lower half lies on the pulse's FIRST segment: psi selects radius, segment length and kernel constants by the
+    # sign of `scale` (unit psi-segment-selection below), so "each half along its own segment" needs scale = -1/2 here
+    psi_minus = psi_uf(eng, arg(dv_m, 0), arg(dv_m, 1), k, Fraction(-1, 2), pidx)
     for c in range(3):
         g0 = gnd_sgn.data[pidx][0] if c == 2 else 1
         g1 = gnd_sgn.data[pidx][1] if c == 2 else 1
@@ -115,6 +119,17 @@ class _NoSecondSign(ast.NodeTransformer):
         return node
 
 
+class _LowerHalfWithUpperSegmentData(ast.NodeTransformer):
+    """the defect repaired in /repo: both psi calls with scale +0.5, i.e. the lower half integrated with the radius and
+    length of the upper segment"""
+
+    def visit_Call(self, node):
+        self.generic_visit(node)
+        if ast.unparse(node.func) == 'self.psi' and len(node.args) >= 4 and isinstance(node.args[3], ast.UnaryOp):
+            node.args[3] = ast.Constant(0.5)
+        return node
+
+
 class _WrongDs(ast.NodeTransformer):
     def visit_Call(self, node):
         self.generic_visit(node)
@@ -127,7 +142,74 @@ U_NF = Unit(P + '/Mininec.nf_helper', ['Mininec.nf_helper'], t_nf_helper, SCHEMA
             notes='bounded(shape): 2 pulses, 1 observation point, scalar pulse index; values unbounded',
             canaries=[Canary('second-half-along-the-first-segment', 'Mininec.nf_helper', _SecondHalfFirstDir, [P + '/Mininec.nf_helper/component']),
                       Canary('ground-sign-on-the-wrong-component', 'Mininec.nf_helper', _GroundSignAll, [P + '/Mininec.nf_helper/']),
-                      Canary('both-halves-from-the-upper-half-segment', 'Mininec.nf_helper', _WrongDs, [P + '/Mininec.nf_helper/component'])])
+                      Canary('both-halves-from-the-upper-half-segment', 'Mininec.nf_helper', _WrongDs, [P + '/Mininec.nf_helper/component']),
+                      Canary('lower-half-with-the-upper-segment-length-and-radius', 'Mininec.nf_helper', _LowerHalfWithUpperSegmentData,
+                             [P + '/Mininec.nf_helper/component'])])
+
+
+# ---------------------------------------------------------------- psi: which segment's data a call uses
+def t_psi_select(eng):
+    """the leading statements of Mininec.psi: radius, segment length and i6 are those of the pulse's first segment for
+    scale < 0 and of its second segment for scale > 0, and the integral is weighted with |scale| * that length.  This is the
+    part of psi's contract nf_helper's obligation relies on (psi itself stays an uninterpreted function of its arguments)."""
+    n = P + '/Mininec.psi[segment selection]/'
+    Q = 'Mininec.psi'
+    f = eng.get_fnode(Q)
+    body = [st for st in f.body if not (isinstance(st, ast.Expr) and isinstance(st.value, ast.Constant))]
+    want = ['r', 'seg_len', 'i6']
+    head = []
+    for st in body:
+        if isinstance(st, ast.Assign) and len(st.targets) == 1 and isinstance(st.targets[0], ast.Name) and st.targets[0].id in want:
+            head.append(st)
+        else:
+            break
+    eng.oblige(n + 'selection-statements-found', [st.targets[0].id for st in head] == want, detail=str([ast.unparse(st)[:40] for st in head]))
+    s4 = [st for st in body if isinstance(st, ast.Assign) and ast.unparse(st.targets[0]) == 's4']
+    eng.oblige(n + 'weight-statement-found', len(s4) == 1)
+    # between the selection and the weight nothing reassigns seg_len
+    if len(s4) == 1:
+        k0, k1 = len(head), body.index(s4[0])
+        re = [ast.unparse(st)[:40] for st in body[k0:k1] for t in ast.walk(st)
+              if isinstance(t, ast.Name) and t.id == 'seg_len' and isinstance(t.ctx, ast.Store) and not isinstance(st, ast.If)]
+        eng.oblige(n + 'segment-length-not-reassigned-before-the-weight', not re, detail=str(re))
+    if len(head) != 3 or len(s4) != 1:
+        return
+    m = SObj('Mininec', label='m')
+    pu = SObj('Pulse_Container', label='pulses')
+    m.fields['pulses'] = pu
+    rad = sym_nd((N, 2), 'rad')
+    sl = sym_nd((N, 2), 'sl')
+    i6 = sym_nd((N, 2), 'i6')
+    pu.fields.update({'radius': rad, 'seg_len': sl, 'i6': i6})
+    scale = [Fraction(-1), Fraction(-1, 2), Fraction(1, 2), Fraction(1)][eng.choose(4)]
+    pidx = eng.choose(N)
+    env = {'self': m, 'scale': float(scale), 'pidx': pidx}
+    eng.frames.append({'fref': eng.fref(Q), 'env': env, 'qual': Q, 'node': f})
+    try:
+        eng.exec_block(head + s4, env)
+    finally:
+        eng.frames.pop()
+    eng.cover('psi-select-%s-%d' % (scale, pidx))
+    j = 1 if scale > 0 else 0
+    eng.oblige(n + 'radius-of-the-segment-the-sign-of-scale-names', r_cmp('==', env['r'], rad.data[pidx][j]))
+    eng.oblige(n + 'length-of-the-segment-the-sign-of-scale-names', r_cmp('==', env['seg_len'], sl.data[pidx][j]))
+    eng.oblige(n + 'kernel-constant-of-the-segment-the-sign-of-scale-names', r_cmp('==', env['i6'], i6.data[pidx][j]))
+    eng.oblige(n + 'weight-is-the-length-of-the-integrated-piece', r_cmp('==', env['s4'], r_mul(abs(scale), sl.data[pidx][j])))
+
+
+class _AlwaysSecondSegment(ast.NodeTransformer):
+    def visit_Call(self, node):
+        self.generic_visit(node)
+        if ast.unparse(node) == 'int(scale > 0)':
+            return ast.Constant(1)
+        return node
+
+
+U_PSEL = Unit(P + '/Mininec.psi-segment-selection', ['Mininec.psi'], t_psi_select, SCHEMA,
+              slices={'Mininec.psi': 'the three leading assignments (r, seg_len, i6) and the assignment of s4; dropped: quadrature order, '
+                                     'kernel choice, the integration itself (psi stays an uninterpreted function in the other units)'},
+              notes='bounded(shape): 2 pulses, scalar pulse index; scale in {-1, -1/2, 1/2, 1} (the only values the code passes)',
+              canaries=[Canary('always-the-second-segment', 'Mininec.psi', _AlwaysSecondSegment, [P + '/Mininec.psi[segment selection]/'])])
 
 
 
@@ -204,7 +286,360 @@ U_MASK = Unit(P + '/compute_near_field-image-mask', ['Mininec.compute_near_field
               canaries=[Canary('image-pass-skips-only-first-end-grounded', 'Mininec.compute_near_field', _FirstEndOnly,
                                [P + '/compute_near_field[image pass mask]/image-pass'])])
 
-UNITS = [U_NF, U_MASK]
+
+# ---------------------------------------------------------------- the field assembly of compute_near_field
+def assembly_slice(eng):
+    """the statements of compute_near_field from `s0 = ...` up to the loop over the observation points, without the two
+    statements that build the point grid (decided under C16), and the whole body of that loop."""
+    Q = 'Mininec.compute_near_field'
+    f = eng.get_fnode(Q)
+    loop = [x for x in f.body if isinstance(x, ast.For) and 'near_field_iter' in ast.unparse(x.iter)]
+    if len(loop) != 1:
+        from pyvc.source import Unresolved
+        raise Unresolved('loop over near_field_iter in compute_near_field')
+    loop = loop[0]
+    pre = []
+    started = False
+    dropped = []
+    for st in f.body[:f.body.index(loop)]:
+        tg = ast.unparse(st.targets[0]) if isinstance(st, ast.Assign) else ''
+        if tg == 's0':
+            started = True
+        if not started:
+            continue
+        if tg in ('r', 'self.near_field_coord'):
+            dropped.append(tg)
+            continue
+        pre.append(st)
+    return f, pre, loop, dropped
+
+
+def t_assembly(eng):
+    """Contract, from the property ("the fields of the solved pulse currents and their charges", anchors: scalar-potential
+    gradient by finite differences over 0.001 wavelength, H from the curl of A, power scaling of both fields), for ONE
+    observation point x and NA pulses, A(k, y, p) the vector-potential contribution of pulse p (nf_helper's contract) and
+    P(k, y-displacement, p, side) the scalar-potential integral over the full segment on `side` of the pulse
+    (psi_near_field_56), mask_k = all pulses (k = 1) / pulses without grounded end (k = -1):
+      E_c = f_e * (-j m / s0) * sum_p I_p * sum_k k*mask_k(p) * [ (P(-h_c, seg2) - P(+h_c, seg2)) / len2_p
+                                                          + (P(+h_c, seg1) - P(-h_c, seg1)) / len1_p + 2 s0 w2 A_c(k, x, p) ]
+            (h_c = half a step s0 along axis c: the central difference of the scalar potential over s0)
+      H   = f_e / (4 pi s0) * curl_s0 [ sum_k k * sum_{p in mask_k} I_p A(k, ., p) ]
+            where (curl_s0 F)_x = F_z(x + s0/2 e_y) - F_z(x - s0/2 e_y) - F_y(x + s0/2 e_z) + F_y(x - s0/2 e_z), cyclic:
+            central differences with the SAME step s0 on both sides of the point, wherever the point lies
+      f_e = sqrt(requested power / power of the solution)."""
+    n = P + '/compute_near_field[field assembly]/'
+    Q = 'Mininec.compute_near_field'
+    f, pre, loop, dropped = assembly_slice(eng)
+    eng.name_real_quotients = True
+    eng.oblige(n + 'slice-found', len(pre) >= 6 and sorted(dropped) == ['r', 'self.near_field_coord'], detail=str((len(pre), dropped)))
+    NA = 2
+    ground = eng.choose(2) == 1
+    gcase = eng.choose(3) if ground else 0          # pulse 0: no grounded end / end 1 grounded / end 2 grounded
+    m = SObj('Mininec', label='m')
+    pc = SObj('Pulse_Container', label='pulses')
+    m.fields['pulses'] = pc
+    wl = fresh_real('wavelen')
+    pw = fresh_real('power')
+    rq = fresh_real('requested')
+    eng.assume(r_cmp('>', wl, 0))
+    eng.assume(r_cmp('>', pw, 0))
+    eng.assume(r_cmp('>', rq, 0))
+    w2 = fresh_real('w2')
+    mm = fresh_real('m')
+    m.fields.update({'wavelen': wl, 'power': pw, 'w2': w2, 'm': mm})
+    m.fields['e_field'] = SList([('conc', [])])
+    m.fields['h_field'] = SList([('conc', [])])
+    if ground:
+        med = SObj('Medium', label='ideal')
+        med.fields['is_ideal'] = True
+        m.fields['media'] = SList([('conc', [med])])
+    else:
+        m.fields['media'] = None
+    cur = NDArr([fresh_cx('I%d' % k) for k in range(NA)])
+    m.fields['current'] = cur
+    sl = sym_nd((NA, 2), 'sl')
+    for row in sl.data:
+        for x in row:
+            eng.assume(r_cmp('>', x, 0))
+    gr = [[gcase == 1, gcase == 2]] + [[False, False] for _ in range(NA - 1)]
+    # representation invariant of Pulse: gnd_sgn is -1 at the grounded end of a pulse and 1 elsewhere
+    pc.fields.update({'idx': NDArr(list(range(NA))), 'seg_len': sl, 'ground': NDArr(gr),
+                      'gnd_sgn': NDArr([[-1 if g else 1 for g in row] for row in gr])})
+    eng.summaries['Pulse_Container.__len__'] = lambda e, a, k: NA
+    eng.summaries['Mininec.image_iter'] = lambda e, a, k: SList([('conc', [1, -1] if ground else [1])])
+    CXS = [R] * 6
+
+    def A(e, k, y, p, c):
+        fre = e.uf('A%d.re' % c, *CXS)
+        fim = e.uf('A%d.im' % c, *CXS)
+        a = [term(k, True)] + [term(t, True) for t in y] + [term(p, True)]
+        return CX(SV(fre(*a), 'real'), SV(fim(*a), 'real'))
+
+    def Pq(e, k, x, d, ds0, p, side):
+        fre = e.uf('P.re', *([R] * 11))
+        fim = e.uf('P.im', *([R] * 11))
+        a = [term(k, True)] + [term(t, True) for t in list(x) + list(d)] + [term(ds0, True), term(p, True), term(side, True)]
+        return CX(SV(fre(*a), 'real'), SV(fim(*a), 'real'))
+
+    def nf_helper(e, a, kw):
+        k_, v, pidx = a[1:4]
+        rows = v.data
+        px = pidx.data
+        if len(rows) != len(px):
+            raise EngineError('nf_helper: %d points for %d pulse indices' % (len(rows), len(px)))
+        return NDArr([[A(e, k_, rows[i], px[i], c) for c in range(3)] for i in range(len(rows))])
+    eng.summaries['Mininec.nf_helper'] = nf_helper
+
+    def psi56(e, a, kw):
+        vec0, vect, k_, ds0, pidx, ds2 = a[1:7]
+        if len(vect.data) != len(pidx.data):
+            raise EngineError('psi_near_field_56: %d displacements for %d pulse indices' % (len(vect.data), len(pidx.data)))
+        return NDArr([Pq(e, k_, vec0.data, vect.data[i], Fraction(ds0).limit_denominator(16), pidx.data[i], ds2)
+                      for i in range(len(pidx.data))])
+    eng.summaries['Mininec.psi_near_field_56'] = psi56
+    x = [fresh_real('ox'), fresh_real('oy'), fresh_real('oz')]
+    if ground:
+        eng.assume(r_cmp('>=', x[2], 0))      # over ground the observation point lies on or above the plane
+    env = {'self': m, 'pwr': rq}
+    s0 = r_mul(Fraction(1, 1000), wl)
+    masks = {1: [True] * NA, -1: [not (gr[p][0] or gr[p][1]) for p in range(NA)]}
+    ks = [1, -1] if ground else [1]
+    unit = lambda c, sc: [r_mul(sc, s0) if j == c else 0 for j in range(3)]
+    cut = {}
+
+    def hook(e_, st, env_):
+        # cut at the statement that consumes the per-pulse array u56: the obligation relating u56 to the potentials is stated
+        # here, then u56 is replaced by arbitrary values, so that the remaining obligation (E from u56) is proved for every u56;
+        # the clause of the property is the conjunction of the two (substitution of equals)
+        if 'u56' in cut or not (isinstance(st, ast.AugAssign) and ast.unparse(st.target) == 'u78'
+                                and any(isinstance(t, ast.Name) and t.id == 'u56' for t in ast.walk(st.value))):
+            return
+        u56 = env_.get('u56')
+        ok56 = isinstance(u56, NDArr) and u56.shape == (NA, 3)
+        e_.oblige(n + 'per-pulse-gradient-array-has-one-row-per-pulse', ok56)
+        if not ok56:
+            raise EngineError('u56 is not an array of one row per pulse')
+        for c in range(3):
+            d = unit(c, 2)        # the displacement vector handed to psi_near_field_56: 2 s0 e_c, used with ds0 = +-1/2 and "/ 2"
+            for p in range(NA):
+                acc = CX(0, 0)
+                for k in ks:
+                    if not masks[k][p]:
+                        continue
+                    up = c_div(c_sub(Pq(e_, k, x, d, Fraction(-1, 2), p, 1), Pq(e_, k, x, d, Fraction(1, 2), p, 1)), to_cx(sl.data[p][1]))
+                    lo = c_div(c_sub(Pq(e_, k, x, d, Fraction(1, 2), p, -1), Pq(e_, k, x, d, Fraction(-1, 2), p, -1)), to_cx(sl.data[p][0]))
+                    av = c_mul(A(e_, k, x, p, c), to_cx(r_mul(r_mul(2, s0), w2)))
+                    acc = c_add(acc, c_mul(to_cx(k), c_add(c_add(up, lo), av)))
+                e_.oblige(n + 'pulse-term-%s-is-the-two-charge-differences-over-their-own-segment-lengths-plus-the-current-term' % 'xyz'[c],
+                          c_eq(to_cx(u56.data[p][c]), acc))
+        cut['u56'] = NDArr([[fresh_cx('u56_%d%s' % (p, 'xyz'[c])) for c in range(3)] for p in range(NA)])
+        env_['u56'] = cut['u56']
+    eng.stmt_hook = hook
+    eng.frames.append({'fref': eng.fref(Q), 'env': env, 'qual': Q, 'node': f})
+    try:
+        eng.exec_block(pre, env)
+        env['vec'] = NDArr(list(x))
+        env['vecno'] = 0
+        eng.exec_block(loop.body, env)
+    finally:
+        eng.frames.pop()
+    eng.cover('assembly-ground%d-case%d' % (ground, gcase))
+    ef, hf = m.fields['e_field'], m.fields['h_field']
+    es = ef.concrete() if isinstance(ef, SList) and ef.is_concrete() else None
+    hs = hf.concrete() if isinstance(hf, SList) and hf.is_concrete() else None
+    ok = es is not None and hs is not None and len(es) == 1 and len(hs) == 1 and \
+        isinstance(es[0], NDArr) and isinstance(hs[0], NDArr) and es[0].shape == (3,) and hs[0].shape == (3,)
+    eng.oblige(n + 'one-E-and-one-H-vector-appended-per-point', ok)
+    if not ok:
+        return
+    E, H = es[0], hs[0]
+    eng.oblige(n + 'step-is-a-thousandth-of-the-wavelength', r_cmp('==', env['s0'], s0))
+    fe = B.sqrt_real(eng, r_div(rq, pw))
+    eng.oblige(n + 'power-scaling-is-sqrt-of-requested-over-computed-power', r_cmp('==', env['f_e'], fe))
+    from pyvc.builtins import PI
+    fh = r_div(r_div(fe, s0), r_mul(4, PI))
+    u56 = cut.get('u56')
+    eng.oblige(n + 'the-sum-over-the-pulses-consumes-the-per-pulse-array', u56 is not None)
+    if u56 is None:
+        return
+    for c in range(3):
+        tot = CX(0, 0)
+        for p in range(NA):
+            tot = c_add(tot, c_mul(to_cx(u56.data[p][c]), cur.data[p]))
+        want = c_mul(c_mul(tot, CX(0, r_neg(r_div(mm, s0)))), to_cx(fe))
+        eng.oblige(n + 'E-%s-is-the-current-weighted-sum-of-the-pulse-terms-times-minus-j-m-over-s0-times-the-power-factor' % 'xyz'[c],
+                   c_eq(to_cx(E.data[c]), want))
+
+    def F(c, i, sgn):
+        """component c of the summed vector potential at x + sgn * s0/2 * e_i"""
+        y = [r_add(x[j], r_mul(Fraction(sgn, 2), s0)) if j == i else x[j] for j in range(3)]
+        t = CX(0, 0)
+        for k in ks:
+            for p in range(NA):
+                if masks[k][p]:
+                    t = c_add(t, c_mul(c_mul(A(eng, k, y, p, c), cur.data[p]), to_cx(k)))
+        return t
+
+    def dd(c, i):
+        return c_sub(F(c, i, 1), F(c, i, -1))
+    curl = [c_sub(dd(2, 1), dd(1, 2)), c_sub(dd(0, 2), dd(2, 0)), c_sub(dd(1, 0), dd(0, 1))]
+    for c in range(3):
+        eng.oblige(n + 'H-%s-is-the-central-difference-curl-of-the-vector-potential-with-step-s0' % 'xyz'[c],
+                   c_eq(to_cx(H.data[c]), c_mul(curl[c], to_cx(fh))))
+
+
+class _OneSidedBelowGround(ast.NodeTransformer):
+    """seed C04d in small: the lower difference point clamped to z >= 0"""
+
+    def visit_Assign(self, node):
+        if ast.unparse(node.targets[0]) == 'v0m' and isinstance(node.value, ast.Call) and 'np.array' in ast.unparse(node.value.func):
+            node.value = ast.parse('np.array ([[[p [0], p [1], p [2] * 0] for p in blk] for blk in v0m])').body[0].value
+        return node
+
+
+class _GradientOverFirstLengthTwice(ast.NodeTransformer):
+    def visit_Assign(self, node):
+        if ast.unparse(node.targets[0]) == 'u' and 'sl [:, 1' in ast.unparse(node.value).replace('sl[', 'sl [').replace(',1', ', 1'):
+            for t in ast.walk(node.value):
+                if isinstance(t, ast.Constant) and t.value == 1:
+                    t.value = 0
+        return node
+
+
+class _NoPowerRoot(ast.NodeTransformer):
+    def visit_Assign(self, node):
+        if ast.unparse(node.targets[0]) == 'f_e':
+            node.value = node.value.args[0]
+        return node
+
+
+class _CurlSign(ast.NodeTransformer):
+    def visit_Assign(self, node):
+        if ast.unparse(node.targets[0]).replace(' ', '') == 'h[0]' and isinstance(node.value, ast.BinOp):
+            node.value.left, node.value.right = node.value.right, node.value.left
+        return node
+
+
+U_ASM = Unit(P + '/compute_near_field-field-assembly', ['Mininec.compute_near_field'], t_assembly, SCHEMA,
+             slices={'Mininec.compute_near_field': 'from `s0 = ...` to the end, for one observation point; dropped by name: the two statements '
+                                                   'building the point grid (`r`, `self.near_field_coord`: C16) and the three result '
+                                                   'initialisations before `s0` (frame: C14 assigns)'},
+             notes='bounded(shape): 2 pulses, 1 observation point; free space / ideal ground with pulse 0 ungrounded, grounded at end 1, at end 2; '
+                   'all values symbolic; nf_helper and psi_near_field_56 by contract (uninterpreted functions of their arguments)',
+             canaries=[Canary('difference-point-clamped-to-the-plane', 'Mininec.compute_near_field', _OneSidedBelowGround, [n_ for n_ in [P + '/compute_near_field[field assembly]/H-']]),
+                       Canary('both-charge-terms-over-the-first-segment-length', 'Mininec.compute_near_field', _GradientOverFirstLengthTwice, [P + '/compute_near_field[field assembly]/pulse-term-']),
+                       Canary('power-ratio-without-the-root', 'Mininec.compute_near_field', _NoPowerRoot, [P + '/compute_near_field[field assembly]/power-scaling']),
+                       Canary('curl-component-with-the-wrong-sign', 'Mininec.compute_near_field', _CurlSign, [P + '/compute_near_field[field assembly]/H-x'])])
+
+
+# ---------------------------------------------------------------- psi_near_field_56: what the scalar-potential term integrates
+def t_psi56(eng):
+    """Contract of psi_near_field_56 (vec0, vect, k, ds0, pidx, ds2), the P of the assembly unit: the integral psi over the
+    FULL segment of pulse pidx on the side ds2 (ds2 = -1: from the far end of the first segment to the pulse point, data of
+    the first segment; ds2 = +1: from the pulse point to the far end of the second segment, data of the second segment),
+    mirrored in z for the image (k = -1), seen from vec0 + ds0 * vect / 2, with the thin-wire kernel."""
+    n = P + '/Mininec.psi_near_field_56/'
+    m = SObj('Mininec', label='m')
+    pu = SObj('Pulse_Container', label='pulses')
+    m.fields['pulses'] = pu
+    dvf_p = sym_nd((N, 2, 3), 'dfp')      # dvecs(+1): (point, far end of segment 2)
+    dvf_m = sym_nd((N, 2, 3), 'dfm')      # dvecs(-1): (far end of segment 1, point)
+    asked = []
+
+    def dvecs(e, a, k_):
+        asked.append(a[1])
+        return dvf_p if a[1] > 0 else dvf_m
+    eng.summaries['Pulse_Container.dvecs'] = dvecs
+    calls = []
+
+    def psi(e, a, kw):
+        vec2, vecv, k_, scale, pidx = a[1:6]
+        calls.append((kw.get('exact'), scale))
+        return psi_uf(e, vec2.data, vecv.data, k_, scale, pidx)
+    eng.summaries['Mininec.psi'] = psi
+    k = 1 if eng.choose(2) == 0 else -1
+    pidx = eng.choose(N)
+    ds0 = [Fraction(1, 2), Fraction(-1, 2)][eng.choose(2)]
+    ds2 = [1, -1][eng.choose(2)]
+    v0 = [fresh_real('ox'), fresh_real('oy'), fresh_real('oz')]
+    vt = [fresh_real('tx'), fresh_real('ty'), fresh_real('tz')]
+    r = eng.call_qual('Mininec.psi_near_field_56', [m, NDArr(list(v0)), NDArr(list(vt)), k, float(ds0), pidx, ds2])
+    eng.cover('psi56-%d-%d-%s-%d' % (k, pidx, ds0, ds2))
+    kvec = [1, 1, k]
+    dv = dvf_p if ds2 > 0 else dvf_m
+    obs = [r_add(v0[c], r_div(r_mul(ds0, vt[c]), 2)) for c in range(3)]
+    a0 = [r_sub(obs[c], r_mul(kvec[c], dv.data[pidx][0][c])) for c in range(3)]
+    a1 = [r_sub(obs[c], r_mul(kvec[c], dv.data[pidx][1][c])) for c in range(3)]
+    want = psi_uf(eng, a0, a1, k, ds2, pidx)
+    eng.oblige(n + 'full-segment-on-the-named-side-seen-from-the-displaced-point', isinstance(r, CX) and c_eq(r, want))
+    eng.oblige(n + 'segment-ends-asked-for-the-same-side', [float(a) for a in asked] == [float(ds2)], detail=str(asked))
+    eng.oblige(n + 'thin-wire-kernel-and-the-data-of-that-segment', [(bool(x), float(sc)) for x, sc in calls] == [(False, float(ds2))], detail=str(calls))
+
+
+class _HalfStepTwice(ast.NodeTransformer):
+    def visit_Assign(self, node):
+        if ast.unparse(node.targets[0]) == 'vec1':
+            for t in ast.walk(node.value):
+                if isinstance(t, ast.Constant) and t.value == 2:
+                    t.value = 1
+        return node
+
+
+class _ImageNotMirrored(ast.NodeTransformer):
+    def visit_Assign(self, node):
+        if ast.unparse(node.targets[0]) == 'vv' and 'kvec' in ast.unparse(node.value):
+            for t in ast.walk(node.value):
+                if isinstance(t, ast.BinOp) and isinstance(t.op, ast.Mult) and ast.unparse(t.left) == 'kvec':
+                    t.left = ast.Constant(1)
+        return node
+
+
+U_P56 = Unit(P + '/Mininec.psi_near_field_56', ['Mininec.psi_near_field_56'], t_psi56, SCHEMA,
+             notes='bounded(shape): 2 pulses, 1 observation point, scalar pulse index; values unbounded; psi and dvecs by contract',
+             canaries=[Canary('whole-step-instead-of-half', 'Mininec.psi_near_field_56', _HalfStepTwice, [P + '/Mininec.psi_near_field_56/full-segment']),
+                       Canary('far-end-of-the-image-not-mirrored', 'Mininec.psi_near_field_56', _ImageNotMirrored, [P + '/Mininec.psi_near_field_56/full-segment'])])
+
+
+# ---------------------------------------------------------------- Pulse.endseg / Pulse.dvecs: the ends of a half or whole segment
+def t_dvecs(eng):
+    """Pulse.dvecs(ds), |ds| in {1/2, 1}: the pair (start, end) in wire direction of the piece of length |ds| of the segment on
+    the side sign(ds) of the pulse point: ds < 0: (point + |ds| (end1 - point), point); ds > 0: (point, point + ds (end2 - point))."""
+    n = P + '/Pulse.dvecs/'
+    p = SObj('Pulse', label='p')
+    e1 = [fresh_real('e1%s' % c) for c in 'xyz']
+    e2 = [fresh_real('e2%s' % c) for c in 'xyz']
+    pt = [fresh_real('pt%s' % c) for c in 'xyz']
+    p.fields['ends'] = SList([('conc', [NDArr(list(e1)), NDArr(list(e2))])])
+    p.fields['point'] = NDArr(list(pt))
+    ds = [Fraction(-1), Fraction(-1, 2), Fraction(1, 2), Fraction(1)][eng.choose(4)]
+    r = eng.call_qual('Pulse.dvecs', [p, float(ds)])
+    eng.cover('dvecs-%s' % ds)
+    items = r.items if hasattr(r, 'items') and not callable(r.items) else (list(r) if isinstance(r, (tuple, list)) else None)
+    ok = items is not None and len(items) == 2 and all(isinstance(v, NDArr) and v.shape == (3,) for v in items)
+    eng.oblige(n + 'returns-a-pair-of-points', ok, detail=repr(r)[:80])
+    if not ok:
+        return
+    far = e2 if ds > 0 else e1
+    end = [r_add(pt[c], r_mul(abs(ds), r_sub(far[c], pt[c]))) for c in range(3)]
+    want = (pt, end) if ds > 0 else (end, pt)
+    for j in range(2):
+        for c in range(3):
+            eng.oblige(n + 'piece-of-the-segment-on-the-side-of-the-sign-in-wire-direction', r_cmp('==', items[j].data[c], want[j][c]))
+
+
+class _AlwaysSecondEnd(ast.NodeTransformer):
+    def visit_Subscript(self, node):
+        self.generic_visit(node)
+        if ast.unparse(node.value) == 'self.ends':
+            node.slice = ast.Constant(1)
+        return node
+
+
+U_DV = Unit(P + '/Pulse.dvecs', ['Pulse.dvecs', 'Pulse.endseg'], t_dvecs, SCHEMA, inline=('Pulse.endseg',),
+            notes='all values symbolic; ds in {-1, -1/2, 1/2, 1} (the values the code passes)',
+            canaries=[Canary('always-towards-the-second-end', 'Pulse.endseg', _AlwaysSecondEnd, [P + '/Pulse.dvecs/piece'])])
+
+UNITS = [U_NF, U_PSEL, U_DV, U_P56, U_MASK, U_ASM]
 
 # compute_near_field keeps nothing between calls: its result is a function of (model, frequency, request) -- the frame
 # clause is stated and checked with C14 (assigns: the function writes only e_field, h_field, near_field_coord, nf_param,
